@@ -49,8 +49,10 @@ func c13Spec(rng *rand.Rand, state string, c c13Cfg) *SessSpec {
 	case "rm-waiting":
 		// an event waits in rollback mitigation (not yet persisted on the replica set) when Close() arrives
 		sp.RollbackMitigation = true
+		sp.RMIntervalMs = 400 // the waiting goroutine re-checks every 80 ms: it wakes up after the shutdown has finished
 		vb := rng.Intn(sp.NumVB)
-		sp.Steps = append(sp.Steps, Step{Op: "persistbelow", VB: vb, N: 1}, Step{Op: "sleep", Ms: 60}, Step{Op: "append", VB: vb, Items: genSnap(rng, o, &ctr)}, Step{Op: "append", VB: vb, Items: genSnap(rng, o, &ctr)}, Step{Op: "sleep", Ms: 60})
+		sp.Steps = append(sp.Steps, Step{Op: "persistbelow", VB: vb, N: 1}, Step{Op: "waitrounds", VB: vb, N: 2}, Step{Op: "append", VB: vb, Items: []ItemSpec{{K: "m", Key: []byte("passes-1"), Val: []byte("{}")}, {K: "m", Key: []byte("waits-2"), Val: []byte("{}")}}},
+			Step{Op: "persistbelow", VB: vb, Sel: "high-1"}, Step{Op: "waitrounds", VB: vb, N: 2}, Step{Op: "sleep", Ms: 120})
 	case "mid-traffic":
 		for k := 0; k < 6; k++ {
 			sp.Steps = append(sp.Steps, app())
